@@ -256,6 +256,7 @@ MonEvent(e) ==
            <<o.version = 4 /\ o.hlen = 19, "binlog version / header length">>,
            <<o.srvver = TrimNul(e.srvver), "server version">>,
            <<o.sizes = e.sizes, "per-event header sizes">>,
+           <<~o.accPanic /\ o.sizesByAccessor = e.sizes, "per-event header sizes through the HeaderSize accessor (every described type)">>,
            <<o.alg = e.alg, "checksum algorithm">>})
     [] e.fn = "ev.rotate" ->
          Chk("C16.rotate", e, {<<~o.err /\ ~o.panic /\ o.is /\ HdrOK(e), "ROTATE header">>,
@@ -283,6 +284,12 @@ MonEvent(e) ==
 \* a buffer holds a full 19-byte header and its length field (bytes 10..13, little endian) equals the buffer length
 LenFieldIs(buf, n) == buf[10] = n % 256 /\ buf[11] = (n \div 256) % 256 /\ buf[12] = (n \div 65536) % 256 /\ buf[13] = n \div 16777216
 IsValidSpec(buf) == Len(buf) >= 19 /\ LenFieldIs(buf, Len(buf))
+\* large buffers travel as (length, first 19 bytes)
+MonIsValidBig(e) ==
+  Chk("C17.gate", e, {
+    <<~e.obs.panic, "IsValid panicked">>,
+    <<e.obs.valid = (e.n >= 19 /\ LenFieldIs(e.hdr, e.n)),
+      "IsValid disagrees with: full 19-byte header and length field = buffer length (an event larger than one protocol packet)">>})
 MonIsValid(e) ==
   Chk("C17.gate", e, {
     <<~e.obs.panic, "IsValid panicked">>,
@@ -422,6 +429,7 @@ Mon(e) ==
     [] e.fn = "gtidmaria" -> MonGtidMaria(e)
     [] e.fn = "gtidmaria.event" -> MonGtidMariaEvent(e)
     [] e.fn = "gs56.codec" -> MonGs56Codec(e)
+    [] e.fn = "isvalid.big" -> MonIsValidBig(e)
     [] e.fn = "gsmaria" -> MonGsMaria(e)
     [] e.fn = "cell" -> UNION {MonCell(e, p) : p \in Props} \cup
                         (IF ZoneOK(e) THEN {} ELSE {F("HARNESS.zone", e, "zone offset logged by the harness is not the zone's")})
